@@ -85,6 +85,26 @@ def check_expr(L, e, le):
     return None
 
 
+def produce(L, recipe, le):
+    """The expression object a producer makes of the source tree (objects keep what their producer left on them)."""
+    from core import build_expr
+    e = L.parse(recipe['text']) if recipe.get('text') is not None else build_expr(recipe['source'])
+    name = recipe['producer']
+    if name == 'parse':
+        return e
+    if name == 'simplify':
+        return e.simplify()
+    if name == 'dedup':
+        return L.dedup(e)
+    if name == 'simplify-nested':
+        s_ = e.simplify()
+        return le.AND(s_, le.LicenseSymbol('zz-last')) if isinstance(s_, le.OR) else le.OR(s_, le.LicenseSymbol('zz-last'))
+    other = build_expr(recipe['other'])
+    if name == 'combine':
+        return le.combine_expressions([e, other, e], relation=recipe['relation'], unique=recipe['unique'], licensing=L)
+    return le.combine_expressions([e.simplify(), other.simplify()], relation=recipe['relation'], unique=recipe['unique'], licensing=L)
+
+
 def run(rep, tier, seed):
     le = imp()
     rng = random.Random(seed)
@@ -109,15 +129,23 @@ def run(rep, tier, seed):
             if any(any(w in KW for w in gen.lw(k)) for k in L.license_keys(e)):
                 rep.count('skipped_kw_in_unknown')
                 continue
-            produced = [('parse', e), ('simplify', e.simplify()), ('dedup', L.dedup(e))]
+            src = enc_expr(e)
+            recipes = [{'producer': 'parse', 'source': src, 'text': text}, {'producer': 'simplify', 'source': src, 'text': text},
+                       {'producer': 'dedup', 'source': src, 'text': text}, {'producer': 'dedup', 'source': src},
+                       # a simplified operand inside a hand-made or combined expression keeps what simplify() left on it
+                       {'producer': 'simplify-nested', 'source': src, 'text': text}]
             try:
                 other = L.parse(parsing.gen_expression(rng, T, depth=1)[0])
                 if other is not None and not any(any(w in KW for w in gen.lw(k)) for k in L.license_keys(other)):
-                    produced.append(('combine', le.combine_expressions([e, other, e], relation=rng.choice(['AND', 'OR']),
-                                                                       unique=rng.random() < 0.5, licensing=L)))
+                    recipes.append({'producer': 'combine', 'source': src, 'text': text, 'other': enc_expr(other), 'relation': rng.choice(['AND', 'OR']),
+                                    'unique': rng.random() < 0.5})
+                    recipes.append({'producer': 'combine-simplified', 'source': src, 'other': enc_expr(other), 'relation': rng.choice(['AND', 'OR']),
+                                    'unique': False})
             except le.ExpressionError:
                 pass
-            for name, x in produced:
+            for recipe in recipes:
+                name = recipe['producer']
+                x = produce(L, recipe, le)
                 err = check_expr(L, x, le)
                 rep.trail.append({'table': T, 'tree': enc_expr(x)})
                 rep.case((repr(T), str(x), name), nontrivial=not isinstance(x, le.BaseSymbol),
@@ -125,7 +153,7 @@ def run(rep, tier, seed):
                 rep.count('producer_' + name)
                 if err:
                     rep.violations.append({'key': 'roundtrip', 'kind': 'expr', 'table': T, 'tree': enc_expr(x), '_at': len(rep.trail) - 1,
-                                           'text': str(x), 'what': '%s result: %s' % (name, err)})
+                                           'recipe': recipe, 'text': str(x), 'what': '%s result: %s' % (name, err)})
                     continue
                 model_reqs.append((14, enc_expr(x)))
                 model_meta.append(x)
@@ -160,5 +188,7 @@ def run(rep, tier, seed):
 def replay(payload):
     le = imp()
     T = [(k, a, e) for k, a, e in payload['table']]
-    err = check_expr(make_licensing(T), build_expr(payload['tree']), le)
+    L = make_licensing(T)
+    x = produce(L, payload['recipe'], le) if payload.get('recipe') else build_expr(payload['tree'])
+    err = check_expr(L, x, le)
     return err is None, err or 'round trip and templates hold'
